@@ -237,7 +237,7 @@ def run(ctx, report: Report) -> None:
                 key='scan', nontrivial=False)
 
     # ---- R2 ------------------------------------------------------------------------------------------------
-    r2 = report.rule('C14-R2', 'parser and matcher objects are call-local', floor=6)
+    r2 = report.rule('C14-R2', 'parser and matcher objects are call-local', floor=13)
     percall = {'css_parser.CSSParser', 'css_match.CSSMatch', 'css_parser._Selector', 'css_match._FakeParent'}
     for mn, mod in src.mods.items():
         for n in ast.walk(mod.tree):
@@ -277,7 +277,7 @@ def run(ctx, report: Report) -> None:
                              f'outlives the call / is visible to other threads')
 
     # ---- R3 ------------------------------------------------------------------------------------------------
-    r3 = report.rule('C14-R3', 'process-wide caches hold immutable values and read no variable state', floor=2)
+    r3 = report.rule('C14-R3', 'process-wide caches hold immutable values and read no variable state', floor=1)
     n_cached = 0
     for mn, mod in src.mods.items():
         for q, fn in mod.functions.items():
